@@ -34,10 +34,10 @@ def run(chk):
     chk.sanitizer = {"flavour": "asan", "reports": 0}
     plen, slen = vf.tier_n(chk.tier, (6, 7), (8, 9))
     args = ["--plen", str(plen), "--slen", str(slen),
-            "--wild-random", str(vf.tier_n(chk.tier, 6000, 200000)),
-            "--range-multi", str(vf.tier_n(chk.tier, 300, 6000)),
-            "--index", str(vf.tier_n(chk.tier, 600, 20000)),
-            "--beadlist", str(vf.tier_n(chk.tier, 100, 3000))]
+            "--wild-random", str(vf.tier_n(chk.tier, 30000, 200000)),
+            "--range-multi", str(vf.tier_n(chk.tier, 1500, 6000)),
+            "--index", str(vf.tier_n(chk.tier, 3000, 20000)),
+            "--beadlist", str(vf.tier_n(chk.tier, 500, 3000))]
     jobs = [lambda s=s: vf.run_proc(
         [h, "--seed", str(chk.seed), "--shard", str(s), "--shards",
          str(shards)] + args, env=env, timeout=3000) for s in range(shards)]
